@@ -57,6 +57,7 @@ func c20(c *Ctx) {
 	c20Detector(c)
 	c20FrameTrimmed(c)
 	c20ReportWhenQuiet(c)
+	checksumOddOctetHigh(c, "checksum-odd-octet-high", "A probe of odd length with a non-zero last octet (ping -s 57) fails verification and is dropped before its knock is queued.")
 }
 
 func c20Sends(c *Ctx) {
